@@ -160,7 +160,7 @@ class C14(Prop):
         'one read event carries at most one message (pipelining is outside the statement); at most one response per read is asserted',
         'after the component fires close(sock) the server component delivers no further reads and fires disconnect(sock)',
         'which 4xx/5xx is chosen, and whether malformed input is rejected or tolerated, is not asserted',
-        'plain close without a response is accepted only when the read starts like a TLS/SSL record (0x16 or a byte >= 0x80)',
+        'plain close without a response is accepted only when the FIRST read of a message starts like a TLS/SSL record (0x16 or a byte >= 0x80)',
         'HEAD is not generated (response framing for HEAD is judged by C15)',
     )
     budget = {'quick': (650, 4), 'thorough': (9000, 16)}
@@ -188,6 +188,7 @@ class C14(Prop):
             'dcq': st.sampled_from([False, False, True]),
             'pre': st.sampled_from([False, False, False, True]),
             'psplit': st.sampled_from([False, True]),
+            'hicut': st.sampled_from([False, False, True]),
         })
 
     FUZZ_PROCS = 12
@@ -278,7 +279,15 @@ class C14(Prop):
     def execute(self, spec):
         seed = H.build(spec['base'])
         data = H.mutate(seed, spec['muts'])
-        reads = H.split_reads(data, spec['cuts'], spec.get('bytewise', False))
+        cuts = list(spec['cuts'])
+        hicut = False
+        if spec.get('hicut') and not spec.get('bytewise', False):
+            # a read boundary right before (up to four) bytes that look like the start of a TLS/SSL record (0x16 or >= 0x80)
+            hi = [i - 1 for i, b in enumerate(data) if i > 0 and (b == 0x16 or b >= 0x80)][:4]
+            if hi:
+                cuts = sorted(set(hi))
+                hicut = True
+        reads = H.split_reads(data, cuts, spec.get('bytewise', False))
         n = len(reads)
         dc = n if spec['dc'] < 0 else spec['dc'] % (n + 1)
         classes = []
@@ -287,6 +296,8 @@ class C14(Prop):
                 classes.append('mut:' + fam)
         if n > 1:
             classes.append('reads:many')
+        if hicut and n > 1:
+            classes.append('read-starts-with-high-byte-mid-message')
         if dc < n:
             classes.append('dc:before-end')
         if spec['dcq']:
@@ -339,11 +350,14 @@ class C14(Prop):
             clause, msg, resps = H.judge_output(delta)
             if clause:
                 return bad(clause, msg)
+            first_of_message = conn['since'] == b''
             conn['since'] += chunk
             many_ok = H.two_messages_possible(conn['since'])
             if not resps:
-                if closes and not H.looks_like_tls(chunk):
-                    return bad('close-without-response', 'connection closed without any response to %r' % chunk[:60])
+                # "simply closes (TLS handshake on a plain-text port)": only a read that STARTS a message can be a client hello
+                if closes and not (first_of_message and H.looks_like_tls(chunk)):
+                    return bad('close-without-response', 'connection closed without any response to %r (%s)' % (
+                        chunk[:60], 'first read of the message' if first_of_message else 'a later read of a message already begun'))
             else:
                 conn['since'] = b''
                 if record and state['first'] is None:
